@@ -515,20 +515,39 @@ def givenNodeOk (S : Schema) (n : Node) : Bool := contentOk S n && kidsMarksOk S
 open PM.FromDom PM.DomWalk in
 /-- **`parse` is total and is a run of the placement core.**  For every parser, every abstract DOM and every
     oracle the walk terminates (it is a Lean function; `addAll` / `addDom` / `addElement` are defined by
-    well-founded recursion on the DOM weight and the number of rules left), and if it returns, then the
+    well-founded recursion on the DOM weight and the number of rules left); it raises ValueError, dies with an
+    internal error (see `parse_no_internal` for when it cannot), or returns, and if it returns, then the
     sequence of calls it logged, replayed from the initial `ParseContext`, gives exactly its final state —
     so every theorem about *all* event sequences (`placement_*`) speaks about every real parse. -/
 theorem parse_total (P : Parser) (rootTag : String) (kids : List DNode) :
-    (∃ e, parse P rootTag kids = .error e) ∨
+    parse P rootTag kids = .error .valueError ∨ parse P rootTag kids = .error .internal ∨
     (∃ w doc, parseW P rootTag kids = .ok (w, doc) ∧ parse P rootTag kids = .ok doc ∧
       PState.run P.S P.wsPre (PState.init P.S false .unset false) w.log = .ok w.st ∧
       ∃ rest, w.st.finish P.S = .ok (some doc, rest)) := by
   unfold parse
   cases hp : parseW P rootTag kids with
-  | error e => exact Or.inl ⟨e, rfl⟩
+  | error e =>
+    -- the only failures are ValueError and the internal ones
+    have hne : e ≠ .failed := by
+      unfold parseW at hp
+      cases ha : addAll P rootTag kids false (walkInit P false .unset) with
+      | error e' => simp only [ha, Except.error.injEq] at hp; subst hp; exact addAll_nofail P rootTag kids _ _ ha
+      | ok w =>
+        simp only [ha] at hp
+        cases hf : w.st.finish P.S with
+        | error e' => simp only [hf, Except.error.injEq] at hp; subst hp; exact finish_nf P.S w.st _ hf
+        | ok r =>
+          obtain ⟨od, rest⟩ := r
+          cases od with
+          | none => simp only [hf, Except.error.injEq] at hp; subst hp; decide
+          | some d => simp [hf] at hp
+    cases e with
+    | failed => exact absurd rfl hne
+    | valueError => exact Or.inl rfl
+    | internal => exact Or.inr (Or.inl rfl)
   | ok r =>
     obtain ⟨w, doc⟩ := r
-    refine Or.inr ⟨w, doc, rfl, rfl, ?_⟩
+    refine Or.inr (Or.inr ⟨w, doc, rfl, rfl, ?_⟩)
     unfold parseW at hp
     cases ha : addAll P rootTag kids false (walkInit P false .unset) with
     | error e => simp [ha] at hp
@@ -745,6 +764,16 @@ theorem context_rules_apply_exactly (P : Parser) (stack : List TypeId) (start : 
     intro h
     have := (matchTag_some P stack post start _ h).2.2.1
     exact absurd (hpost _ this) (Nat.lt_irrefl _)
+
+open PM.DomWalk in
+/-- **`schema_rules` orders the collected rules by priority, stably**: the result is a permutation of the
+    `parseDOM` entries (all marks' first, then all nodes', in spec order) with non-increasing priority
+    (missing = 50), and entries of equal priority keep their collection order — so a mark's rule beats a
+    node's rule of the same priority, and within one spec the earlier entry wins. -/
+theorem schema_rules_order (specs : List RuleSpec) :
+    (schemaRules specs).Pairwise (fun a b => b.prio ≤ a.prio) ∧ (schemaRules specs).Perm specs ∧
+    ∀ p, (schemaRules specs).filter (fun x => x.prio == p) = specs.filter (fun x => x.prio == p) :=
+  schemaRules_spec specs
 
 section Examples
 open PM.FromDom
